@@ -174,7 +174,7 @@ class Gen:
         if kind == "call":
             names = ["f", "g", "f2"] if cfg.focus != "C20" else ["f", "h", "f2"]
             name = names[H.hole(L + ".fn", len(names) - 1)]
-            a0 = self.ref(L + ".a0", ("pool", last), [("pool", 0), ("const", 3), ("const", None), ("idx", last, 0), ("idx", last, "k")])
+            a0 = self.ref(L + ".a0", ("pool", last), [("pool", 0), ("const", 3), ("const", None), ("idx", last, 0), ("idx", last, "k"), ("idx", last, (0, 1))])
             a1 = self.ref(L + ".a1", None, [("pool", 0), ("pool", last), ("const", 3), ("idx", last, 0)])
             args = [a0] + ([a1] if a1 is not None else [])
             kwlast = bool(H.hole(L + ".kw", 1))
